@@ -34,7 +34,9 @@ THEOREMS = [
     "C07_directive_args_sound", "C07_directive_args_total", "C07_skip_if_is_boolean",
     "C07_usage_from_rule24", "C07_valid_schema_of_agree", "C07_subtype_agree",
     "C07_usage_ok_from_validation", "C07_validated_request_sound", "C07_validated25_request_sound",
-    "C07_usage_ok_example", "C07_example",
+    "C07_usage_ok_example", "C07_dir_if_is_directive_arguments", "C07_collector_skip_is_general",
+    "C07_user_exception_bubbles", "C07_user_exception_bubbles_list", "C07_user_exception_bubbles_request",
+    "C07_example",
 ]
 AXIOMS_OK = []
 RUN_MODULE = "Run.C07run Exec.CoerceModel"
@@ -164,6 +166,23 @@ def corpus():
     for t in (G.N("Point", True), G.L(G.N("Point")), G.N("Point")):
         ex([{"name": "p", "py": "p_py", "type": t, "default": None}],
            "{ f(p: {x: 1, zzUnknown: 2}) }", {}, "unknown-field")
+    # a user scalar raising an arbitrary exception: it bubbles up, also past
+    # CoercionErrors already collected for earlier items / fields
+    val(G.N("Odd"), 13, "user-exception")
+    val(G.N("Odd"), 7, "user-exception")
+    val(G.L(G.N("Odd")), [2, 13], "user-exception")
+    val(G.L(G.N("Odd")), [13, 2], "user-exception")
+    val(G.L(G.N("Odd", True)), [None, 4, 13, 5], "user-exception")
+    val(G.N("Node"), {"odds": [1, 13]}, "user-exception")           # `value` missing AND the exception
+    val(G.N("Node"), {"value": 1, "odds": [2], "zz": 1}, "user-exception")
+    lit(G.N("Odd"), "13", label="user-exception")
+    lit(G.L(G.N("Odd")), "[3, 13, 2]", label="user-exception")
+    ex([{"name": "o", "py": "o_py", "type": G.L(G.N("Odd", True)), "default": None}],
+       "query ($v: [Odd!]) { f(o: $v) }", {"v": [1, 13]}, "user-exception")
+    ex([{"name": "o", "py": "o_py", "type": G.N("Odd"), "default": None}],
+       "{ f(o: 13) }", {}, "user-exception")
+    ex([{"name": "o", "py": "o_py", "type": G.N("Odd"), "default": None}],
+       "{ f(o: 3) }", {}, "user-exception")
     # one field node on an abstract position, resolved against several concrete
     # field definitions (seeded C07-b: argument cache keyed by the node alone)
     ia = [{"name": "scale", "py": "scale", "type": G.N("Int"), "default": [1]},
@@ -222,7 +241,7 @@ def _value_cases(rng, sd, t, n_nat, n_wrong, depth=2):
         j = G.gen_json(rng, sd, t, depth, None)
         out.append(("natural", j))
     for _ in range(n_wrong):
-        lab = rng.choice(G.WRONG_LABELS)
+        lab = rng.choice(G.WRONG_LABELS + ["user-exception"])
         for _try in range(4):
             plan = G.Plan(rng, lab)
             j = G.gen_json(rng, sd, t, depth, plan)
@@ -253,7 +272,7 @@ def _with_vars(rng, sd, t, j):
 
 
 def _exec_case(rng, sd):
-    names = ["Int", "Float", "String", "ID", "Boolean", "Any1", "Tag"] + [
+    names = ["Int", "Float", "String", "ID", "Boolean", "Any1", "Tag", "Odd"] + [
         td["name"] for td in sd["types"] if td["kind"] in ("enum", "input")]
     shapes = G.type_shapes(2)
     args, parts, vdefs, raw = [], [], [], {}
@@ -271,7 +290,7 @@ def _exec_case(rng, sd):
         args.append(arg)
         mode = rng.choice(["omit", "lit", "lit", "litvar", "var", "var", "var"])
         wrong = rng.random() < 0.3
-        lab = rng.choice(G.WRONG_LABELS) if wrong else None
+        lab = rng.choice(G.WRONG_LABELS + ["user-exception"]) if wrong else None
         plan = G.Plan(rng, lab) if wrong else None
         j = G.gen_json(rng, sd, t, 2, plan)
         planted = wrong and not plan.armed
@@ -524,13 +543,13 @@ def _abs_query(case):
     return "query Q%s { items { ... on Thing %s } }" % (case["vardefs"], body)
 
 
-GRID_VALUES = [None, 0, 1, -1, 2 ** 31 - 1, -2 ** 31, 2 ** 31, -2 ** 31 - 1, 1.5, 2.0, True, False,
+GRID_VALUES = [None, 13, [1, 2, 13], 0, 1, -1, 2 ** 31 - 1, -2 ** 31, 2 ** 31, -2 ** 31 - 1, 1.5, 2.0, True, False,
                "", "abc", "RED", "NOPE", "12", [], [None], [1], [[1]], ["RED"], {}, {"x": 1},
                {"x": None}, {"x": 1, "y": None}, {"x": 1, "zz": 2}, {"value": 1}, [{"x": 2}]]
 
 
 def _grid(sd, maxdepth):
-    names = ["Int", "Float", "String", "ID", "Boolean", "Any1", "Tag", "Color", "Point", "Node"]
+    names = ["Int", "Float", "String", "ID", "Boolean", "Any1", "Tag", "Odd", "Color", "Point", "Node"]
     for shape in G.type_shapes(maxdepth):
         for n in names:
             t = shape(n)
@@ -591,7 +610,17 @@ def generate(rng, tier):
 
 
 # ------------------------------------------------------------ implementation
+def _crash(e):
+    # exceptions of the harness' raising user scalar are user code bubbling up
+    # (ScalarType.parse: "other exceptions bubble up"), named apart
+    if isinstance(e, G.OddBoom):
+        return {"crash": "user:OddBoom"}
+    return {"crash": type(e).__name__, "msg": str(e)[:200]}
+
+
 def _exc(e):
+    if isinstance(e, G.OddBoom):
+        return _crash(e)
     if isinstance(e, VariablesCoercionError):
         return {"rej": 3, "type": type(e).__name__}
     if isinstance(e, CoercionError):
@@ -618,7 +647,7 @@ def _run_request(b, query, raw, **kw):
     try:
         res = graphql_blocking(b.schema, query, variables=raw, **kw)
     except Exception as e:  # noqa
-        return {"crash": type(e).__name__, "msg": str(e)[:200]}
+        return _crash(e)
     errs = list(res.errors or [])
     if errs and all(isinstance(e, ValidationError) for e in errs):
         return {"validation": len(errs), "called": len(b.calls)}
@@ -994,6 +1023,18 @@ def _dir_checks(case, obs):
     return out
 
 
+def _is_violation_crash(case, r):
+    """any exception other than the documented families is a violation, except
+    the arbitrary exception of the raising user scalar where it was planted"""
+    c = str(r.get("crash", ""))
+    if not c:
+        return False
+    if c.startswith("user:"):
+        lab = case.get("label", "")
+        return not (lab.startswith("user-exception") or lab == "grid")
+    return True
+
+
 def direct_checks(case, obs):
     out = []
     if case["kind"] == "dir":
@@ -1002,7 +1043,7 @@ def direct_checks(case, obs):
         return _abs_checks(case, obs)
     if case["kind"] != "exec":
         r = obs["r"]
-        if "crash" in r:
+        if _is_violation_crash(case, r):
             out.append(("raises-only-documented-errors: %s" % r["crash"], None))
         # the two leniencies pinned by the test-suite (open findings): a value of
         # the wrong JSON kind is accepted -- exactly when the planted mistake is
@@ -1012,7 +1053,7 @@ def direct_checks(case, obs):
         return out
     ex, va = obs["exec"], obs["validated"]
     for name in ("vars", "args", "exec", "validated"):
-        if name in obs and "crash" in obs[name]:
+        if name in obs and _is_violation_crash(case, obs[name]):
             out.append(("raises-only-documented-errors (%s): %s" % (name, obs[name]["crash"]), None))
     if "validation" in va:
         if va["called"]:
